@@ -181,6 +181,7 @@ package stdlib
 //@   ensures result1 == nil ==> bytes(result0) == protoenc(m) [ASSUMED]
 
 //@ assume-contract google.golang.org/protobuf/proto.Unmarshal
+//@   ghost label PUM
 //@   nopanic
 //@   ensures result == nil ==> protodecoded(m) == bytes(b) [ASSUMED]
 //@   modifies ghost(protodecoded)
